@@ -182,7 +182,7 @@ static void tt_call(const tcase_t *c, int tid, tbuf_t *B) {
 /* ---- race reports ---- */
 static volatile int tt_races;
 static volatile uintptr_t tt_race_addr;
-static char tt_race_desc[96];
+static const char *volatile tt_race_desc_p;
 
 typedef struct { uintptr_t value; size_t size; char name[56]; int is_func; } tsym_t;
 static tsym_t *tsyms;
@@ -232,13 +232,15 @@ int __tsan_get_report_data(void *report, const char **description, int *count, i
                            int *thread_count, int *unique_tid_count, void **sleep_trace, unsigned long trace_size);
 int __tsan_get_report_mop(void *report, unsigned long idx, int *tid, void **addr, int *size, int *write, int *atomic, void **trace, unsigned long trace_size);
 void __tsan_on_report(void *report);
-void __tsan_on_report(void *report) {
+/* not instrumented: a store to the harness's own counters from inside the report callback would itself be
+   reported while the report lock is held (observed: deadlock) */
+__attribute__((no_sanitize("thread"))) void __tsan_on_report(void *report) {
     const char *desc = NULL;
     int count = 0, sc = 0, mc = 0, lc = 0, mtc = 0, tc = 0, ut = 0, tid = 0, size = 0, wr = 0, at = 0;
     void *sleep_trace[2] = {0, 0}, *trace[2] = {0, 0}, *addr = NULL;
     __tsan_get_report_data(report, &desc, &count, &sc, &mc, &lc, &mtc, &tc, &ut, sleep_trace, 1);
     if (mc > 0) __tsan_get_report_mop(report, 0, &tid, &addr, &size, &wr, &at, trace, 1);
-    if (!tt_races) { tt_race_addr = (uintptr_t)addr; snprintf(tt_race_desc, sizeof tt_race_desc, "%s", desc ? desc : "?"); }
+    if (!tt_races) { tt_race_addr = (uintptr_t)addr; tt_race_desc_p = desc; }
     tt_races++;
 }
 const char *__tsan_default_options(void);
@@ -279,7 +281,7 @@ static void exec_tt(const void *k, res_t *r, const runcfg_t *cfg) {
     return;
 #endif
     set_str_constraint_handler_s(tt_handler); set_mem_constraint_handler_s(tt_handler);
-    tt_races = 0; tt_race_addr = 0;
+    tt_races = 0; tt_race_addr = 0; tt_race_desc_p = NULL;
     pthread_barrier_init(&tt_bar, NULL, 2);
     for (i = 0; i < 2; i++) { ta[i].c = c; ta[i].tid = i; pthread_create(&th[i], NULL, tt_thread, &ta[i]); }
     for (i = 0; i < 2; i++) pthread_join(th[i], NULL);
@@ -290,7 +292,7 @@ static void exec_tt(const void *k, res_t *r, const runcfg_t *cfg) {
         r->fragile = 1; /* TSan reports each racy pair once per process: start the next case in a fresh worker */
         if (sym && (!strncmp(sym, "tt_", 3) || !strncmp(sym, "g_ar", 4))) { res_label(r, "harness-race(machinery)"); return; }
         RES_VIOL(r, "C12:%s:data-race:%s", tfname[c->fn % TF_N], sym ? sym : "unnamed-object");
-        RES_DETAIL(r, "ThreadSanitizer: %s at %p (%s), %d report(s), two threads on private buffers", tt_race_desc, (void *)tt_race_addr, sym ? sym : "no symbol", tt_races);
+        RES_DETAIL(r, "ThreadSanitizer: %s at %p (%s), %d report(s), two threads on private buffers", tt_race_desc_p ? tt_race_desc_p : "?", (void *)tt_race_addr, sym ? sym : "no symbol", tt_races);
     }
 }
 
